@@ -5,3 +5,4 @@ INVARIANT SyncFnWins
 INVARIANT BoundOnce
 INVARIANT ClassificationConsistent
 INVARIANT Export
+PROPERTY CallsIndependent
